@@ -28,7 +28,7 @@ RULE = (
 
 PARAMS = {
     'quick': dict(full=0, dense=3, light=40, near=3, mutations=3),
-    'thorough': dict(full=4, dense=24, light=400, near=16, mutations=12),
+    'thorough': dict(full=8, dense=40, light=400, near=30, mutations=12),
 }
 EXPECT = ('format(x) does not raise; N(validate(format(x))) == N(validate(x)); format(x) == format(validate(x))')
 
